@@ -84,7 +84,7 @@ fn native_misc_registry0() -> Vec<(&'static str, fn(&mut crate::src::EnumSrc))> 
         ("nevo_enum256", (|s: &mut crate::src::EnumSrc| crate::native_misc::evolve_enum256(s)) as fn(&mut crate::src::EnumSrc)),
         // n(pairs_diff, "C05,C13,C15", "diff_schema; diff_enum; diff_fields; diff_primitive", "pairs of one-variant enums with <= 2 primitive fields; discriminants/widths from small domains");
         ("pairs_diff", (|s: &mut crate::src::EnumSrc| crate::schemapairs::diff_pairs(s)) as fn(&mut crate::src::EnumSrc)),
-        // n(pairs_layout, "C11", "Schema::layout_compatible; SchemaEnum/Variant/Field::layout_compatible", "pairs of one-variant enums with <= 2 primitive fields, two offsets");
+        // n(pairs_layout, "C09,C11", "Schema::layout_compatible; SchemaEnum/Variant/Field::layout_compatible", "pairs of one-variant enums with <= 2 primitive fields, two offsets");
         ("pairs_layout", (|s: &mut crate::src::EnumSrc| crate::schemapairs::layout_pairs(s)) as fn(&mut crate::src::EnumSrc)),
         // n(ledger_compat, "C15", "AbiTraitDefinition::verify_backward_compatible; verify_compatible_with_old_impl; diff_schema", "one recorded method, <= 2 arguments of 3 primitive kinds, async flag, presence");
         ("ledger_compat", (|s: &mut crate::src::EnumSrc| crate::ledger::ledger_compat(s)) as fn(&mut crate::src::EnumSrc)),
